@@ -29,10 +29,10 @@ def main(ctx, args, pid="C02", backend="vm"):
     known = load_known(pid)
     if not extract(ctx):
         ctx.finish()
-    proved = prove(ctx, MODULES, drivers=["drv_prog"])
+    proved = prove(ctx, MODULES, drivers=["drv_prog", "drv_mir"])
     if proved and ctx.tier == "thorough":
         proved = leancheck(ctx, MODULES)
-    if not build_harness(ctx, bins=["runprog"]):
+    if not build_harness(ctx, bins=["runprog", "mir"]):
         ctx.finish()
     times = 24 if ctx.tier == "quick" else 64
     failures, stats, gstats = [], collections.Counter(), collections.Counter()
@@ -40,7 +40,7 @@ def main(ctx, args, pid="C02", backend="vm"):
     if args.replay:
         r = json.load(open(args.replay))
         cases = [{"id": "replay", "src": r["src"], "sx": r.get("sx"), "inputs": r.get("inputs", []), "times": r.get("times", 16)}]
-        res = pc.run_batch(cases, backends=backend, nshards=1)
+        res = pc.run_batch(cases, backends=backend, nshards=1, want_mir=True)
         allcases = cases
     else:
         allcases = []
@@ -48,10 +48,17 @@ def main(ctx, args, pid="C02", backend="vm"):
             cs, st = pc.gen_cases(ctx.seed, n, prof, times)
             gstats.update(st)
             allcases += cs
-        res = pc.run_batch(allcases, backends=backend)
+        res = pc.run_batch(allcases, backends=backend, want_mir=True)
+    matrix, mir_bad, mir_uns = collections.Counter(), [], collections.Counter()
     for c in allcases:
-        vm, wasm, model = res[c["id"]]
+        vm, wasm, model, mir = res[c["id"]]
         impl = vm if backend == "vm" else wasm
+        matrix[pc.mir_class(vm, wasm, model, mir)] += 1
+        if mir is not None and mir.startswith("unsupported"):
+            mir_uns[mir.split(" (")[0][:60]] += 1
+        mv = pc.mir_verdict(vm, wasm, model, mir)
+        if mv is not None:
+            mir_bad.append((c, mv, impl, model, mir))
         stats["evaluations"] += 1
         stats["class_" + impl.split(" ")[0]] += 1
         why = judge(impl, model)
@@ -73,8 +80,10 @@ def main(ctx, args, pid="C02", backend="vm"):
     if failures:
         failures.sort(key=lambda f: len(f[0]["src"]))
         c, why, impl, model = failures[0]
+        mir = res[c["id"]][3]
         rep = {"src": c["src"], "sx": c.get("sx"), "inputs": c["inputs"], "times": c["times"], "why": why, "impl": impl[:2000], "model": (model or "")[:2000],
-               "failing_cases": len(failures), "case_id": c["id"]}
+               "failing_cases": len(failures), "case_id": c["id"], "mir_run": (mir or "")[:2000],
+               "localised_by_mir_run": pc.mir_localise(impl, model, mir)}
         if "prog" in c:
             def still(src, sx, inputs):
                 r = pc.run_batch([{"id": "s", "src": src, "sx": sx, "inputs": inputs, "times": c["times"]}], backends=backend, nshards=1)["s"]
@@ -82,6 +91,17 @@ def main(ctx, args, pid="C02", backend="vm"):
             rep["shrunk"] = pc.shrink_case(c, still)
             rep["src"], rep["sx"] = rep["shrunk"]["src"], rep["shrunk"]["sx"]
         ctx.violation(f"{backend} output differs from the reference semantics ({why}) on {len(failures)} generated programs; smallest:\n{rep['src']}", rep)
+    if mir_bad and not failures:
+        mir_bad.sort(key=lambda f: len(f[0]["src"]))
+        c, mv, impl, model, mir = mir_bad[0]
+        rep = {"src": c["src"], "sx": c.get("sx"), "inputs": c["inputs"], "times": c["times"], "why": mv, "impl": impl[:2000],
+               "model": (model or "")[:2000], "mir_run": (mir or "")[:2000], "failing_cases": len(mir_bad), "case_id": c["id"]}
+        ctx.violation(f"the Lean MIR semantics ({mv}) disagrees with the {backend} AND the reference semantics, which agree with each other, on "
+                      f"{len(mir_bad)} programs (defect of Model/Mir.lean or of the dump, to be fixed); smallest:\n{c['src']}", rep, found_input=False)
+    n_uns = sum(mir_uns.values())
+    if not args.replay and allcases and n_uns * 10 > len(allcases):
+        ctx.violation(f"the Lean MIR semantics does not cover {n_uns} of {len(allcases)} generated programs (> 10 %): {dict(mir_uns.most_common(5))}",
+                      {"stage": "correspond", "unsupported": dict(mir_uns)}, found_input=False)
     if not proved and not failures:
         ctx.violation("proof obligation broken: " + "; ".join(ctx._broken), {"stage": "prove", "theorems": ctx._broken,
                       "lake": getattr(ctx, "_lake_errors", "")}, found_input=False)
@@ -96,5 +116,8 @@ def main(ctx, args, pid="C02", backend="vm"):
         "impl_vs_model_failures": len(failures),
         "outcome_classes": {k: v for k, v in stats.items() if k.startswith("class_")},
         "construct_counts": dict(gstats),
+        "mir_semantics_matrix": {"what": "fourth opinion: the Lean MIR semantics (Model/Mir.lean) run on the dump of the MIR the real compiler produced, "
+                                         "per program against the %s and the reference semantics (bitwise, every sample)" % backend,
+                                 "cells": dict(matrix), "unsupported": dict(mir_uns), "model_defects": len(mir_bad)},
     })
     ctx.finish("proof")
